@@ -318,6 +318,13 @@ def main():
               {"name": "clang-O0", "cc": "clang", "cflags": ("-O0",)}, {"name": "clang-O2", "cc": "clang", "cflags": ("-O2",)},
               # the annotated (pretty) form of the output: the same numbers
               {"name": "gcc-O1-pretty", "cc": "gcc", "cflags": ("-O1",), "w2c2_opts": ("-m", "-p")}]
+    # the translator itself built other ways (debug: -O0, size: clang -Os) and with UBSan (any report is a defect of the translator, whose
+    # result then depends on the compiler that built it)
+    builds += [{"name": "gcc-O1-translator-O0", "cc": "gcc", "cflags": ("-O1",), "w2c2_build": {"flags": ("-O0",)}},
+               {"name": "gcc-O1-translator-clang-Os", "cc": "gcc", "cflags": ("-O1",), "w2c2_build": {"cc": "clang", "flags": ("-Os",)}},
+               {"name": "gcc-O1-translator-ubsan", "cc": "gcc", "cflags": ("-O1",), "w2c2_build": {"flags": ("-O1", "-fsanitize=undefined", "-fno-sanitize-recover=undefined")}},
+               # strict C89 as the project promises (glibc then hides NAN, INFINITY and the C99 math functions' prototypes)
+               {"name": "gcc-O1-std-c89", "cc": "gcc", "cflags": ("-O1", "-std=c89"), "defs": ("-UWASM_THREADS_PTHREADS",)}]
     # the translator run by a user whose locale writes the decimal point as a comma: the literals must not depend on it
     wdl = common.scratch("c07loc-")
     cenv = machine.comma_locale(wdl)
